@@ -31,8 +31,23 @@ func TestIsoWorker(t *testing.T) {
 
 // isoVerdict evaluates a case in the worker and folds process death, timeout
 // and panic into an error.
-func isoVerdict(w *iso.Worker, entry string, cs interface{}, timeout time.Duration) (iso.Response, error) {
+// callTwice is Worker.Call with one repetition when no answer came in time: no
+// answer is a verdict only if it repeats (in a fresh worker, with three times
+// the watchdog). A loaded machine can stall a process for a while; an input
+// that makes the library hang does so again.
+func callTwice(w *iso.Worker, entry string, cs interface{}, timeout time.Duration) (iso.Response, iso.Outcome, string) {
 	resp, outcome, text := w.Call(entry, cs, timeout)
+	if outcome == iso.TimedOut {
+		isoSlowRetries++
+		resp, outcome, text = w.Call(entry, cs, 3*timeout)
+	}
+	return resp, outcome, text
+}
+
+var isoSlowRetries int64
+
+func isoVerdict(w *iso.Worker, entry string, cs interface{}, timeout time.Duration) (iso.Response, error) {
+	resp, outcome, text := callTwice(w, entry, cs, timeout)
 	if outcome != iso.Returned || resp.Panic != "" || resp.Err != "" {
 		return resp, fmt.Errorf("%s", iso.Describe(outcome, resp, text))
 	}
